@@ -18,7 +18,7 @@ func init() {
 		Explanation: "Locks as typestate (E4) over the whole production program: (R1) pairing — every acquisition (mutex, RW mutex, weighted semaphore, advisory file lock) is released on every path to every exit, or ownership is handed to a value whose release is itself obligated (lockExec/lockSync wrappers, snapshotPosition -> snapshotReadPosition.close via sync.Once); " +
 			"(R2) required locksets at call sites (checkpoint only under execSem+chkMu(W); sync/verify only under execSem; chkMu.RLock taken while execSem is held); (R3) the lock-order graph over classes (edge A->B when B is blockingly acquired while A may be held, through calls) is acyclic; " +
 			"(R4) guarded-by: for a frozen table of shared fields every write holds all of its write guards and every read holds at least one read guard, so any write/access pair shares a lock; (R5) DB.Close completeness: once the semaphore is acquired (with a non-cancellable context) every path releases the read lock, closes the SQL handle and the file handle and stops the replica; " +
-			"(R6) RegisterDB: the duplicate scan and the append happen in one critical section on Store.mu and Open/Close are called without it.",
+			"(R6) RegisterDB: the duplicate scan and the append happen in one critical section on Store.mu and Open/Close are called without it. RegisterDB opens/closes only the instance it was given.",
 		NotDecided:  "races on fields outside the table; deadlocks involving channels/contexts/WaitGroups rather than locks (blocking-under-lock is reported, not armed); that the replica still satisfies C01/C02 afterwards",
 		Assumptions: []string{"Go memory model: accesses ordered by a common lock are race-free"},
 	})
@@ -64,51 +64,13 @@ func runC12(c *Ctx) {
 			if deadInProduction(c.P, fn) {
 				continue
 			}
-			direct := 0
-			viaWrapper := false
-			for _, call := range calls(fn) {
-				if _, isDefer := call.(*ssa.Defer); isDefer {
-					continue
-				}
-				if op, ok := classifyLockCall(call); ok {
-					switch op.Kind {
-					case "lock", "rlock", "trylock", "tryrlock", "acquire", "tryacquire":
-						direct++
-					}
-				}
-				for _, g := range la.calleeFns(call) {
-					if _, isW := lockWrappers[fnName(g)]; isW {
-						viaWrapper = true
-						direct++
-					}
-				}
-			}
+			leaks, direct, allowed := pairingLeaks(c, la, fn)
 			if direct == 0 {
 				continue
 			}
-			_ = viaWrapper
 			nAcq += direct
 			c.touch(fn)
-			la.pairing = true
-			exMust, exMay := la.analyse(fn, lockSet{}, false)
-			la.pairing = false
 			name := fnName(fn)
-			allowed := lockWrappers[name]
-			var leaks []string
-			for r, may := range exMay {
-				held := may.clone()
-				for k := range held {
-					if reason, ok := allowed[k]; ok && canSucceed(r) {
-						_ = reason
-						// on success the wrapper must hold it on every path
-						if !exMust[r][k] {
-							leaks = append(leaks, fmt.Sprintf("%s only maybe held at success return %s", k, c.pos(r)))
-						}
-						continue
-					}
-					leaks = append(leaks, fmt.Sprintf("%s still held at return %s", k, c.pos(r)))
-				}
-			}
 			sort.Strings(leaks)
 			if len(leaks) == 0 {
 				detail := fmt.Sprintf("%d acquisition(s); every exit releases them (deferred: %s)", direct, la.deferred[fn].String())
@@ -626,6 +588,20 @@ func c12Register(c *Ctx, la *lockAnalysis) {
 		switch calleeName(call) {
 		case "(*ls.DB).Open", "(*ls.DB).Close":
 			if _, isCall := call.(*ssa.Call); isCall {
+				// the registration only ever opens/closes the instance it was given: closing
+				// an element of s.dbs would shut down the managed database and leave the
+				// duplicate running unmanaged (handles and read lock leaked)
+				recv := argOf(call, 0)
+				own := false
+				for _, o := range origins(recv) {
+					if p, isP := o.(*ssa.Parameter); isP && p.Parent() == fn && refParamName(p) == "db" {
+						own = true
+					}
+				}
+				if len(origins(recv)) != 1 {
+					own = false
+				}
+				c.check(own, rule, fnName(fn)+": "+calleeName(call)+" acts on the instance being registered", c.pos(call), "receiver is the db parameter", "a database other than the one being registered is opened/closed (an element of the managed list)")
 				held := la.inMayBefore(call)
 				c.check(!held.hasClass("Store.mu"), rule, fnName(fn)+": "+calleeName(call)+" is called without Store.mu", c.pos(call), "not held", "a blocking Open/Close runs under the store lock")
 			}
@@ -650,4 +626,50 @@ func (la *lockAnalysis) inMayBefore(at ssa.Instruction) lockSet {
 		la.step(fn, x, must, may, &pend, false)
 	}
 	return may
+}
+
+// pairingLeaks runs the pairing-mode lockset analysis on fn: the locks that
+// can still be held at one of its exits (empty = balanced), the number of
+// acquisitions it performs directly or through wrappers, and the hand-off
+// table entry of fn (locks it returns holding by design).
+func pairingLeaks(c *Ctx, la *lockAnalysis, fn *ssa.Function) (leaks []string, direct int, allowed map[string]string) {
+	for _, call := range calls(fn) {
+		if _, isDefer := call.(*ssa.Defer); isDefer {
+			continue
+		}
+		if op, ok := classifyLockCall(call); ok {
+			switch op.Kind {
+			case "lock", "rlock", "trylock", "tryrlock", "acquire", "tryacquire":
+				direct++
+			}
+		}
+		for _, g := range la.calleeFns(call) {
+			if _, isW := lockWrappers[fnName(g)]; isW {
+				direct++
+			}
+		}
+	}
+	if direct == 0 {
+		return nil, 0, nil
+	}
+	la.pairing = true
+	exMust, exMay := la.analyse(fn, lockSet{}, false)
+	la.pairing = false
+	allowed = lockWrappers[fnName(fn)]
+	for r, may := range exMay {
+		held := may.clone()
+		for k := range held {
+			if _, ok := allowed[k]; ok && canSucceed(r) {
+				// on success the wrapper must hold it on every path
+				if !exMust[r][k] {
+					leaks = append(leaks, fmt.Sprintf("%s only maybe held at success return %s", k, c.pos(r)))
+				}
+				continue
+			}
+			leaks = append(leaks, fmt.Sprintf("%s still held at return %s", k, c.pos(r)))
+		}
+	}
+	// restore interprocedural state for fn
+	la.analyse(fn, la.entry[fn], false)
+	return leaks, direct, allowed
 }
